@@ -124,6 +124,8 @@ class DocGen:
             return rnd.choice(["x", "y.png", "http://a/b?c=1&d=2"])
         if name in ("title", "alt"):
             return rnd.choice([None, "t", 'q"uo<te'])
+        if getattr(self, "nested_attrs", False) and rnd.random() < 0.25:
+            return rnd.choice([[1, {"z": 2}], {"y": [1, "w"]}, [], {}])
         return rnd.choice(ATTR_VALUES)
 
     def attrs(self, decl, owner, p_override=0.3):
